@@ -9,7 +9,7 @@ import (
 
 // condMet reports whether dependency dep (a process name) has met condition c at log
 // position seq, judged from ground truth only. why explains a negative answer.
-func condMet(sc *Scenario, t *Truth, dep, c string, seq int, depth int) (bool, string) {
+func condMet(sc *Scenario, t *Truth, dep, c string, seq int, depth int, waitStart int) (bool, string) {
 	d := sc.Project.Proc(dep)
 	if d == nil || d.Disabled || d.Foreground {
 		return true, "" // not scheduled to run: nothing is owed
@@ -23,13 +23,70 @@ func condMet(sc *Scenario, t *Truth, dep, c string, seq int, depth int) (bool, s
 	reps := ReplicaNames(d.Name, d.Replicas)
 	for _, rep := range reps {
 		insts := t.ByRep[rep]
-		// explicitly stopped by the user: no longer "scheduled to run"
+		// explicitly stopped by the user (and not started again): no longer "scheduled to run"
+		lastOp := ""
+		everStopped := false
 		for _, call := range t.Calls {
-			if (call.Op == "stop" || call.Op == "stopmany" || call.Op == "shutdown" || call.Op == "restart" || call.Op == "update" || call.Op == "scale") && call.CallSeq < seq {
-				if call.Op == "shutdown" || call.Op == "update" || strings.Contains(call.Desc, rep) || strings.Contains(call.Desc, d.Name) {
+			if call.CallSeq >= seq {
+				continue
+			}
+			switch call.Op {
+			case "shutdown", "update":
+				return true, ""
+			case "scale":
+				if strings.Contains(call.Desc, d.Name) {
 					return true, ""
 				}
+			case "stop", "stopmany", "start", "restart":
+				if call.Arg == rep || (call.Op == "stopmany" && strings.Contains(call.Desc, rep)) {
+					if call.Op != "start" {
+						everStopped = true
+					}
+					lastOp = call.Op
+					if call.RetSeq < 0 || call.RetSeq > seq {
+						lastOp = "stop" // still in progress: nothing is demanded
+					}
+				}
 			}
+		}
+		if (lastOp == "stop" || lastOp == "stopmany") && c != "process_healthy" && c != "process_log_ready" {
+			// a dependency that was stopped counts as finished / started; for the readiness
+			// conditions a stop without readiness leaves the condition unmet (C05: the
+			// dependent is skipped), so the evidence below is still required
+			return true, ""
+		}
+		if everStopped && (c == "process_completed" || c == "process_completed_successfully" || c == "process_started" || c == "") {
+			// a stop (also the one inside a restart) releases whoever waits for the
+			// dependency to complete or start: nothing further is demanded
+			return true, ""
+		}
+		// readiness belongs to a life of the dependency: the launches since its last
+		// explicit (re)start. A request still in progress makes both lives acceptable.
+		// Lives that overlap the dependent's own waiting period (which began at waitStart)
+		// all count: a dependency that was ready when the dependent checked it may be
+		// restarted afterwards without the dependent having to wait again.
+		epochs := []int{0}
+		for _, call := range t.Calls {
+			if (call.Op == "start" || call.Op == "restart") && call.Arg == rep && call.Err == "" && call.CallSeq < seq {
+				if call.RetSeq >= 0 && call.RetSeq < seq && call.RetSeq < waitStart {
+					epochs = []int{call.CallSeq}
+				} else {
+					epochs = append(epochs, call.CallSeq)
+				}
+			}
+		}
+		inEpoch := func(s int) bool {
+			for i, e := range epochs {
+				next := 1 << 60
+				if i+1 < len(epochs) {
+					next = epochs[i+1]
+				}
+				_ = next
+				if s > e {
+					return true
+				}
+			}
+			return false
 		}
 		termNoCmd := false
 		for _, tr := range t.Trans[rep] {
@@ -86,16 +143,19 @@ func condMet(sc *Scenario, t *Truth, dep, c string, seq int, depth int) (bool, s
 			}
 			tok = strings.ReplaceAll(tok, "{{.PC_REPLICA_NUM}}", fmt.Sprint(indexOf(reps, rep)))
 			for _, in := range t.ByToken["simprobe:"+tok] {
-				if in.ExitSeq >= 0 && in.ExitSeq < seq && in.Code == 0 && in.BySig == 0 {
+				if in.ExitSeq >= 0 && in.ExitSeq < seq && in.Code == 0 && in.BySig == 0 && inEpoch(in.ExecSeq) {
 					ok = true
 				}
 			}
 			if !ok {
-				return false, fmt.Sprintf("no probe of %s has succeeded yet", rep)
+				return false, fmt.Sprintf("no probe of %s has succeeded yet (since its last explicit start)", rep)
 			}
 		case "process_log_ready":
 			ok := false
 			for _, in := range insts {
+				if !inEpoch(in.ExecSeq) {
+					continue
+				}
 				acc := ""
 				for _, w := range in.Writes {
 					if w.Seq < seq {
@@ -107,7 +167,7 @@ func condMet(sc *Scenario, t *Truth, dep, c string, seq int, depth int) (bool, s
 				}
 			}
 			if !ok {
-				return false, fmt.Sprintf("%s has not written its ready line %q yet", rep, d.ReadyLine)
+				return false, fmt.Sprintf("%s has not written its ready line %q yet (since its last explicit start)", rep, d.ReadyLine)
 			}
 		case "process_started", "":
 			if depth > 8 || termNoCmd {
@@ -116,7 +176,7 @@ func condMet(sc *Scenario, t *Truth, dep, c string, seq int, depth int) (bool, s
 			}
 			// released from all of its own dependencies
 			for _, dd := range sortedKeys(d.DependsOn) {
-				if ok, why := condMet(sc, t, dd, d.DependsOn[dd], seq, depth+1); !ok {
+				if ok, why := condMet(sc, t, dd, d.DependsOn[dd], seq, depth+1, waitStart); !ok {
 					return false, fmt.Sprintf("%s is itself still waiting: %s", rep, why)
 				}
 			}
@@ -166,9 +226,16 @@ func checkC01(sc *Scenario, t *Truth) []Violation {
 		if auto {
 			continue
 		}
+		// the waiting period of this instance began when it became Pending
+		waitStart := t.RunCall
+		for _, tr := range t.Trans[in.Replica] {
+			if tr.Seq < in.ExecSeq && tr.State == "Pending" {
+				waitStart = tr.Seq
+			}
+		}
 		for _, dep := range sortedKeys(p.DependsOn) {
 			c := p.DependsOn[dep]
-			if ok, why := condMet(sc, t, dep, c, in.ExecSeq, 0); !ok {
+			if ok, why := condMet(sc, t, dep, c, in.ExecSeq, 0, waitStart); !ok {
 				vs = append(vs, Violation{"C01", "launched-before-condition-met", c,
 					fmt.Sprintf("%s launched at seq %d (t=%v) but its dependency %s (%s) was not satisfied: %s", in.Replica, in.ExecSeq, in.ExecT, dep, c, why), in.ExecSeq})
 			}
